@@ -36,7 +36,7 @@ class ModelMixin:
                      "ite", "unit", "is_none", "is_str", "is_int", "is_ref", "last", "ref", "allocated",
                      "held", "is_list_of_pos_int", "cls_id", "is_float", "sval", "ival", "dget", "singleton", "str", "is_bool", "is_dict", "is_list",
                      "setof", "contains", "prefix_of", "is_bytes", "is_cls", "map_int2str", "joinstr", "split", "lookup_global",
-                     "funcval", "seqmap", "extends", "only_changed", "UNSET", "unchanged", "unchanged_old", "cls_module_name", "all_reports", "empty_log", "count_failed", "suffix_of", "proj_a", "all_b", "all_tag", "card", "outside", "mro", "none_in", "is_concat", "none_missing", "is_subset", "union", "restrict", "lvk", "unlvk", "prefkeys", "setminus", "all_values", "ref_field", "handling_exception", "bound_args", "setof_seq", "filter_out", "params_of", "truthy", "is_prefix", "proj_b", "all_b_not", "all_a", "all_nat", "levelstr", "ascii_ok", "bytes_of", "str_contains", "codec_facts", "is_tuple"}
+                     "funcval", "seqmap", "extends", "only_changed", "UNSET", "unchanged", "unchanged_old", "cls_module_name", "all_reports", "empty_log", "count_failed", "suffix_of", "proj_a", "all_b", "all_tag", "card", "outside", "mro", "none_in", "is_concat", "none_missing", "is_subset", "union", "restrict", "lvk", "unlvk", "prefkeys", "setminus", "all_values", "ref_field", "handling_exception", "bound_args", "setof_seq", "instance_of", "str_endswith", "filter_out", "params_of", "truthy", "is_prefix", "proj_b", "all_b_not", "all_a", "all_nat", "levelstr", "ascii_ok", "bytes_of", "str_contains", "codec_facts", "is_tuple"}
 
     # ------------------------------------------------------------------ spec-mode calls
     def spec_call(self, e, st):
@@ -322,6 +322,13 @@ class ModelMixin:
             v = a[0]
             ref = Val.rv(v.t) if v.k == "val" else v.t
             return SV("val", self.hget(st, z3.simplify(a[1].t).as_string(), ref))
+        if name == "str_endswith":
+            return SV("bool", z3.SuffixOf(a[1].t, a[0].t))
+        if name == "instance_of":
+            # instance_of(v, c): Python's isinstance(v, c) for an object v and a (user-defined / exception) class value c
+            c = self.concretize(st, a[1])
+            bv = box(a[0])
+            return SV("bool", z3.And(Val.is_RefV(bv), issub(clsof(Val.rv(bv)), c.t if c.k == "cls" else Val.cv(box(c)))))
         if name == "bound_args":
             # bound_args(f, args, kwargs): inspect.getcallargs(f, *args, **kwargs) as a dictionary value (parameter name -> bound value)
             return self._bound_args(st, a, e)
